@@ -76,6 +76,20 @@ type deferred struct {
 	fn   Val
 }
 
+// the call log of the function under verification
+type callResult struct {
+	V Val
+	T types.Type
+}
+
+// a loop cut at its invariant: the callees named in its body ran an unknown number of times in the iterations that are
+// not on this path
+type cutLoop struct {
+	Head  *ssa.BasicBlock
+	Pos   int // len(calls) when the head was passed
+	Names []string
+}
+
 type State struct {
 	regs   map[ssa.Value]Val
 	cells  map[*ssa.Alloc]Val
@@ -89,6 +103,9 @@ type State struct {
 	trace  []string // human-readable branch decisions
 	panicking bool
 	calls   []string        // names of the callees called so far on this path (for ncalls(...) in specs)
+	callRes []callResult    // parallel to calls: the value the call returned on this path (nil until it returned)
+	cutLoops []cutLoop      // loops cut at their invariant so far: callees that may have run an unknown number of times
+	iterMark map[*ssa.BasicBlock]int // loop head -> len(calls) when the iteration under execution started
 	tagOf   map[string]int  // dynamic type decided on this path for an interface value's tag term (closed-interface dispatch)
 	private map[string]bool // objects allocated by this execution whose address has not escaped (unknown callees cannot touch them)
 }
@@ -122,6 +139,14 @@ func (s *State) clone() *State {
 	n.trace = append([]string{}, s.trace...)
 	n.panicking = s.panicking
 	n.calls = append([]string{}, s.calls...)
+	n.callRes = append([]callResult{}, s.callRes...)
+	n.cutLoops = append([]cutLoop{}, s.cutLoops...)
+	if s.iterMark != nil {
+		n.iterMark = map[*ssa.BasicBlock]int{}
+		for k, v := range s.iterMark {
+			n.iterMark[k] = v
+		}
+	}
 	if s.private != nil {
 		n.private = map[string]bool{}
 		for k := range s.private {
